@@ -27,7 +27,12 @@ RULE = ("patterns = every sequence of <= 4 pieces over {abc, a.c, :x, :y?, :r*, 
         "AFTER requests were already served; the same queries (including paths the new route matches) asked before and "
         "after every registration through getRoute AND dispatch, several requests per client address through the real "
         "rate limiter (below its limit), a second router alive in the same process; percent-encoded segments (%2F, %2e, "
-        "%61bc) in the path alphabet of the random pairs and of the table queries (the router matches the text as it is)")
+        "%61bc) in the path alphabet of the random pairs and of the table queries (the router matches the text as it is); "
+        "IDENTIFICATION pairs: 23 patterns with literals in several cases / scripts (composed and decomposed accents, ligature, "
+        "full-width, Angstrom sign) x a matching path x every identlib.text_variants of the path and of each segment (case, NFC/NFD/"
+        "NFKC/NFKD, blanks, BOM, zero-width, look-alikes) + trailing dot, percent-encoded unreserved characters, doubled slashes, "
+        "'.'/'..' segments, ';params' '?query' '#fragment' backslashes: a different text is a different path; table queries "
+        "with case / dot / blank variants of registered paths and methods 'get' / 'Get'")
 ASSUMPTIONS = ["request paths contain no newline (premise no_nl of C16_match_spec; an HTTP request line cannot hold one)",
                "?, * and + parameters only in the last segment (the documented grammar; premise wf_pat)"]
 TRUSTED = ["CPython's re module is trusted to parse the generated expression text into the syntax tree printed by the model "
@@ -185,6 +190,52 @@ POOL = [("GET", "/abc"), ("GET", "/abc/:x"), ("GET", "/abc/abc"), ("GET", "/abc/
 QPATHS = ["", "/", "/abc", "/abc/", "/abc/abc", "/abc/x", "/abc/x/", "/abc/x/y", "/abcdef", "/abc/abcdef", "/aXc/v", "/a.c/v",
           "/a.c/", "/x", "/x/b", "/abc//", "abc", "/abc/x/x"]
 QMETHODS = ["GET", "POST", "PUT", "DELETE", "PATCH", "HEAD", "get"]
+
+
+# patterns with literal segments in several scripts / cases, and paths that a canonicalisation would identify with a path
+# the pattern matches: the router matches the text as it is (literal segments must equal the path's segments IN FULL)
+IDENT_PATTERNS = ["/abc", "/abc/:x", "/Abc", "/ABC/:x", "/abc/a.c", "/a.c/:r+", "/abc/:r*", "/:x/abc", "/abc/:y?", "/caf\u00e9", "/cafe\u0301/:x",
+                  "/\ufb01le/:x", "/file/:x", "/stra\u00dfe", "/\u212b/:r*", "/\u00c5/:r*", "/\uff41\uff42\uff43", "/abc/v1", "/abc/V1/:x", "/a b/:x",
+                  "/%61bc", "/abc./:x", "/abc/\u0130"]
+IDENT_QPATHS = ["/ABC", "/Abc/x", "/abc.", "/abc /x", "/abc\u200b", "/\uff41\uff42\uff43", "/./abc", "/abc/../abc", "/abc;v=1", "/abc?x=1", "/abc#f",
+                "\\abc", "/abc/X", "/%61%62%63", "/abc%20", "/abc/.", "/abc\ufeff", "\ufeff/abc", " /abc", "/abc\x00", "/abc\r"]
+
+
+def ident_pairs(r, thorough):
+    """(pattern, path): a path built to match the pattern, then every identlib.text_variants of the whole path and of one
+    segment (case, Unicode normal forms, blanks, BOM, zero-width, full-width, look-alikes), plus URL habits: a trailing dot,
+    doubled / extra slashes, '.' and '..' segments, percent-encoding of unreserved characters, ';params', '?query', '#frag'"""
+    from harness import identlib
+    import urllib.parse
+    out = []
+    for p in IDENT_PATTERNS:
+        pcs = pieces_of(p)
+        for _ in range(3 if thorough else 1):
+            segs = []
+            for kind, name in pcs:
+                if kind == "lit":
+                    segs.append(name)
+                elif kind in ("one", "plus") or r.random() < 0.6:
+                    segs.append(r.choice(["x", "Abc", "caf\u00e9", "v 1", "a.c", "\ufb01"]))
+                    if kind in ("plus", "star") and r.random() < 0.4:
+                        segs.append(r.choice(["y", "Z"]))
+            q = "".join("/" + x for x in segs)
+            vs = [q] + [t for _, t in identlib.text_variants(q)]
+            for j, x in enumerate(segs):
+                for _, t in identlib.text_variants(x):
+                    if "/" not in t:
+                        vs.append("".join("/" + (t if i == j else y) for i, y in enumerate(segs)))
+                vs.append("".join("/" + (x + "." if i == j else y) for i, y in enumerate(segs)))
+                vs.append("".join("/" + ("".join("%%%02X" % b for b in x.encode("utf-8")) if i == j else y) for i, y in enumerate(segs)))
+                vs.append("".join("/" + (urllib.parse.quote(x, safe="") if i == j else y) for i, y in enumerate(segs)))
+                vs.append("".join("/" + ("%%%02x" % ord(x[0]) + x[1:] if i == j and x and ord(x[0]) < 128 else y) for i, y in enumerate(segs)))
+                vs.append("".join(("//" if i == j else "/") + y for i, y in enumerate(segs)))
+                vs.append("".join(("/./" if i == j else "/") + y for i, y in enumerate(segs)))
+                vs.append("".join(("/zz/../" if i == j else "/") + y for i, y in enumerate(segs)))
+            vs += [q + t for t in (";v=1", "?a=1", "#top", "/.", "/..", "//", "/?", "%2F", "%00", "\\")] + [q.replace("/", "\\"), q[1:], "/" + q]
+            for v in dict.fromkeys(vs):
+                out.append((p, v))
+    return out
 
 
 class Box:
@@ -514,6 +565,9 @@ def run(run):
         if r.random() < 0.05:
             q += "\n"
         pairs.append((p, q))
+    idp = ident_pairs(r, run.thorough())
+    run.count("identification_pairs", len(idp))
+    pairs += idp
     impl = [impl_match(p, q) for p, q in pairs]
     run.compare("router_match", pairs, impl, M.call_many("router_match", [[S(p), S(q)] for p, q in pairs]))
     # the documented rule in the model vs the real router, on the documented grammar and newline-free paths
@@ -615,6 +669,7 @@ def run(run):
             qs = r.sample(qs, 30)
         qs += [("GET", "/abc/x", True), ("HEAD", "/abc", True)]
         qs += [(m, q, False) for m in ("GET", "POST") for q in r.sample(QPATHS_PCT, 2)]
+        qs += [(m, q, False) for m in ("GET", "get", "Get") for q in r.sample(IDENT_QPATHS, 2)]
         res = []
         for (m, q, lim) in qs:
             g = impl_get_route(rt, m, q)
